@@ -46,6 +46,8 @@ def run(ctx, run):
     _legacy(ctx, run, P.need("vbi_bit_slicer_init", DEC))
     _wide_products(ctx, run)
     _validity_regions(ctx, run)
+    _params_before_handover(ctx, run)
+    _cri_count_unscaled(ctx, run)
     _admission(ctx, run)
     from .. import sweep
     sweep.run(ctx, run, ["src/raw_decoder.c", "src/bit_slicer.c", "src/decoder.c", "src/sampling_par.c"], SWEEP_TRUSTED, 110, 1)
@@ -532,3 +534,87 @@ def _payload_units(ctx):
                 else:
                     units.add("payload_bits")
     return units
+
+
+def _params_before_handover(ctx, run):
+    """decoder.c keeps the sampling parameters in the public vbi_raw_decoder and hands them to the
+    internal vbi3 decoder with vbi3_raw_decoder_set_sampling_par (rd3, (vbi_sampling_par *) rd, ...).
+    After that call no path may store into the geometry fields again before the function returns:
+    the internal decoder would keep walking the old line counts over an image of the new size."""
+    P = ctx.prog
+    GEO = {"start", "count", "bytes_per_line", "sampling_rate", "offset", "interlaced", "synchronous", "scanning", "sampling_format"}
+    n = 0
+    for f in P.funcs:
+        if f.file != DEC:
+            continue
+        for bid, i in flow.all_events(f):
+            e = f.exprs[i]
+            if not (e["k"] == "call" and e.get("callee") == "vbi3_raw_decoder_set_sampling_par"):
+                continue
+            n += 1
+            run.touch(f)
+            bad = None
+            seen, stack = set(), [(bid, flow.elem_pos(f)[i][1] + 1)]
+            while stack and bad is None:
+                b, k0 = stack.pop()
+                if (b, k0 > 0) in seen:
+                    continue
+                seen.add((b, k0 > 0))
+                for j in f.blocks[b].elems[k0:]:
+                    if not flow.is_event(f, j):
+                        continue
+                    for lhs, var, op, rhs in flow.stores(f, j):
+                        if lhs is None:
+                            continue
+                        l = f.exprs[ex.skip(f, lhs)]
+                        while l["k"] == "idx":
+                            l = f.exprs[ex.skip(f, l["c"][0])]
+                        if l["k"] == "mem" and l.get("in") in ("vbi_raw_decoder", "_vbi_sampling_par", "vbi_sampling_par") and l["member"] in GEO:
+                            bad = j
+                for s2, _ in f.edges(b):
+                    stack.append((s2, 0))
+            key = "RF-DEP:%s:geometry-final-before-handover" % f.name
+            if bad is None:
+                run.holds("RF-DEP", key, "no geometry field of the public decoder is stored after it was handed to the internal "
+                          "decoder", ex.loc(f, i))
+            else:
+                run.violation("RF-DEP", key, "`%s` changes the sampling geometry after vbi3_raw_decoder_set_sampling_par() has already "
+                              "copied it: the internal decoder keeps the old line counts and, after a shrink, reads rows behind the "
+                              "image" % ex.pretty(f, bad)[:70], ex.loc(f, bad), witness={"function": f.name})
+    run.floor("hand-overs of the sampling parameters in decoder.c", n, 2)
+
+
+def _cri_count_unscaled(ctx, run):
+    """bs->cri_samples is a number of *samples*; every slicer advances its raw pointer by the pixel
+    size itself.  Each read of the field in a slicer must be used as it is (loop count), never scaled."""
+    P = ctx.prog
+    n = 0
+    for f in P.funcs:
+        if f.file not in (BS, DEC) or f.name == "vbi3_bit_slicer_set_params":
+            continue
+        par = None
+        for i, e in enumerate(f.exprs):
+            if e["k"] == "mem" and e["member"] in ("cri_samples", "cri_bytes") and flow.elem_pos(f).get(i) is not None:
+                if par is None:
+                    par = {}
+                    for j, pe in enumerate(f.exprs):
+                        for c in pe.get("c", []) or []:
+                            if isinstance(c, int) and c >= 0:
+                                par.setdefault(c, j)
+                q = par.get(i)
+                while q is not None and f.exprs[q]["k"] == "cast":
+                    q = par.get(q)
+                qe = f.exprs[q] if q is not None else None
+                if qe is not None and qe["k"] == "asg" and ex.skip(f, qe["c"][0]) == i:
+                    continue            # a store to the field, not a read
+                n += 1
+                run.touch(f)
+                key = "RF-UNIT:%s:cri-search-count" % f.name
+                if qe is not None and qe["k"] == "bin" and qe["op"] in ("*", "<<", "/", ">>"):
+                    run.violation("RF-UNIT", key, "`%s` scales the CRI search limit: bs->%s already counts samples and the search "
+                                  "loop steps the raw pointer by the pixel size, so the search runs `bytes per pixel` times as far "
+                                  "as the window set_params computed - past the end of the line" % (ex.pretty(f, q)[:60], e["member"]),
+                                  ex.loc(f, q), witness={"function": f.name})
+                else:
+                    run.holds("RF-UNIT", key, "bs->%s is used unscaled" % e["member"], ex.loc(f, i), nontrivial=False)
+    run.floor("reads of the CRI search limit in slicer functions", n, 3)
